@@ -60,18 +60,24 @@ func tryReplay(w *world, o *vc.OblResult, ex *vc.Exec, rp *Replay) {
 	}
 	src := renderTest(plan)
 	rp.Test = src
-	dir := filepath.Join(verifDir(), "out", "replay", "tmp")
-	os.MkdirAll(dir, 0o755)
+	// the test runs in a scratch copy of the working tree (outside /repo and
+	// /verif, removed afterwards): nothing is ever written to the repository,
+	// not even by the repository's own TestMain helpers
 	rel := strings.TrimPrefix(strings.TrimPrefix(plan.Package, modPath), "/")
-	testFile := filepath.Join(dir, fmt.Sprintf("replay_%d_test.go", os.Getpid()))
-	os.WriteFile(testFile, []byte(src), 0o644)
-	defer os.Remove(testFile)
-	target := filepath.Join(repo, rel, "zz_govc_replay_test.go")
-	ov, _ := json.Marshal(map[string]interface{}{"Replace": map[string]string{target: testFile}})
-	ovFile := filepath.Join(dir, fmt.Sprintf("overlay_%d.json", os.Getpid()))
-	os.WriteFile(ovFile, ov, 0o644)
-	defer os.Remove(ovFile)
-	cmd := exec.Command("bash", "-c", fmt.Sprintf("ulimit -v 8000000; cd %s && go test -tags verif -overlay %s -vet=off -v -count=1 -timeout 60s -run '^TestGovcReplay$' ./%s 2>&1 | head -c 20000", repo, ovFile, rel))
+	scratch, err := os.MkdirTemp("", "govc_replay_")
+	if err != nil {
+		rp.Notes = append(rp.Notes, "cannot create a scratch directory: "+err.Error())
+		return
+	}
+	defer os.RemoveAll(scratch)
+	copyDir := filepath.Join(scratch, "repo")
+	if o, err := exec.Command("cp", "-a", repo, copyDir).CombinedOutput(); err != nil {
+		rp.Notes = append(rp.Notes, "cannot copy the working tree: "+strings.TrimSpace(string(o)))
+		return
+	}
+	os.RemoveAll(filepath.Join(copyDir, ".git"))
+	os.WriteFile(filepath.Join(copyDir, rel, "zz_govc_replay_test.go"), []byte(src), 0o644)
+	cmd := exec.Command("bash", "-c", fmt.Sprintf("ulimit -v 8000000; cd %s && go test -tags verif -vet=off -v -count=1 -timeout 60s -run '^TestGovcReplay$' ./%s 2>&1 | head -c 20000", copyDir, rel))
 	cmd.Env = append(os.Environ(), "GOFLAGS=-mod=mod", "GOPROXY=off", "GOSUMDB=off", "GOTOOLCHAIN=local")
 	out, _ := cmd.CombinedOutput()
 	rp.TestOutput = string(out)
@@ -219,13 +225,14 @@ func cmdReplay(args []string) {
 		os.Exit(2)
 	}
 	defer os.RemoveAll(dir)
-	testFile := filepath.Join(dir, "replay_test.go")
-	os.WriteFile(testFile, []byte(rp.Test), 0o644)
-	target := filepath.Join(repo, rp.Package, "zz_govc_replay_test.go")
-	ov, _ := json.Marshal(map[string]interface{}{"Replace": map[string]string{target: testFile}})
-	ovFile := filepath.Join(dir, "overlay.json")
-	os.WriteFile(ovFile, ov, 0o644)
-	cmd := exec.Command("bash", "-c", fmt.Sprintf("ulimit -v 8000000; cd %s && go test -tags verif -overlay %s -vet=off -v -count=1 -timeout 60s -run '^TestGovcReplay$' ./%s 2>&1 | head -c 20000", repo, ovFile, rp.Package))
+	copyDir := filepath.Join(dir, "repo")
+	if o, err := exec.Command("cp", "-a", repo, copyDir).CombinedOutput(); err != nil {
+		fmt.Println("ERROR cannot copy the working tree:", strings.TrimSpace(string(o)))
+		os.Exit(2)
+	}
+	os.RemoveAll(filepath.Join(copyDir, ".git"))
+	os.WriteFile(filepath.Join(copyDir, rp.Package, "zz_govc_replay_test.go"), []byte(rp.Test), 0o644)
+	cmd := exec.Command("bash", "-c", fmt.Sprintf("ulimit -v 8000000; cd %s && go test -tags verif -vet=off -v -count=1 -timeout 60s -run '^TestGovcReplay$' ./%s 2>&1 | head -c 20000", copyDir, rp.Package))
 	cmd.Env = append(os.Environ(), "GOFLAGS=-mod=mod", "GOPROXY=off", "GOSUMDB=off", "GOTOOLCHAIN=local")
 	out, _ := cmd.CombinedOutput()
 	var got []string
